@@ -385,8 +385,7 @@ impl RefDb {
             DbOp::Delete(t, i) => DbResult::Bool(self.t[t as usize].remove(&i).is_some()),
             DbOp::Get(t, i) => match self.t[t as usize].get(&i) {
                 Some(v) => DbResult::Value(*v),
-                // ParamError::InvalidIndex
-                None => DbResult::Error(10),
+                None => DbResult::Error(ffi::ParamError::InvalidIndex.into()),
             },
         }
     }
@@ -582,8 +581,8 @@ fn c19_map_semantics(rep: &mut Report) {
         }
         // an unknown unit id is reported, not applied
         let rc = update_database(&server, 9, Box::new(|_| {}));
-        if rc != 12 {
-            st.violation(Violation { signature: "update-database-unknown-unit".into(), summary: format!("rc {rc}, expected InvalidUnitId (12)"), replay: json!({}) });
+        if rc != perr(ffi::ParamError::InvalidUnitId) {
+            st.violation(Violation { signature: "update-database-unknown-unit".into(), summary: format!("rc {rc}, expected InvalidUnitId"), replay: json!({}) });
         }
         drop(sock);
         drop(server);
@@ -1064,5 +1063,974 @@ pub fn replay_c19(v: &serde_json::Value) -> Vec<(String, String)> {
             problems.push(("deadlock".into(), format!("{:?}", run.trace)));
         }
         problems.into_iter().map(|(s, d)| (format!("{s}:{name}"), d)).collect()
+    })
+}
+
+// ---------------------------------------------------------------------------------------------
+// C18: the C ABI reports and forwards exactly what the Rust API would
+// ---------------------------------------------------------------------------------------------
+
+/// hand-written name table: the same-named ffi::RequestError for each rodbus::RequestError
+/// (names are matched with names; the numeric values are whatever the generated header says)
+fn ffi_code_for(e: &rodbus::RequestError) -> c_int {
+    use ffi::RequestError as F;
+    use rodbus::ExceptionCode as X;
+    use rodbus::RequestError as E;
+    let f = match e {
+        E::Shutdown => F::Shutdown,
+        E::NoConnection => F::NoConnection,
+        E::ResponseTimeout => F::ResponseTimeout,
+        E::BadRequest(_) => F::BadRequest,
+        E::BadResponse(_) => F::BadResponse,
+        E::Io(_) => F::IoError,
+        E::BadFrame(_) => F::BadFraming,
+        E::Internal(_) => F::InternalError,
+        E::Exception(x) => match x {
+            X::IllegalFunction => F::ModbusExceptionIllegalFunction,
+            X::IllegalDataAddress => F::ModbusExceptionIllegalDataAddress,
+            X::IllegalDataValue => F::ModbusExceptionIllegalDataValue,
+            X::ServerDeviceFailure => F::ModbusExceptionServerDeviceFailure,
+            X::Acknowledge => F::ModbusExceptionAcknowledge,
+            X::ServerDeviceBusy => F::ModbusExceptionServerDeviceBusy,
+            X::MemoryParityError => F::ModbusExceptionMemoryParityError,
+            X::GatewayPathUnavailable => F::ModbusExceptionGatewayPathUnavailable,
+            X::GatewayTargetDeviceFailedToRespond => F::ModbusExceptionGatewayTargetDeviceFailedToRespond,
+            X::Unknown(_) => F::ModbusExceptionUnknown,
+        },
+    };
+    f.into()
+}
+
+fn perr(e: ffi::ParamError) -> c_int {
+    e.into()
+}
+
+#[derive(Clone, Copy, Debug, PartialEq, Eq, Hash, serde::Serialize, serde::Deserialize)]
+pub enum PeerBehaviour {
+    /// reply with a correct answer
+    Good,
+    Exception(u8),
+    /// matching transaction id, truncated PDU
+    BadReply,
+    /// header with protocol id 1
+    BadFrame,
+    Silent,
+    Close,
+}
+
+/// a scripted Modbus TCP peer on a plain thread; records the request frames it received
+struct Peer {
+    addr: SocketAddr,
+    requests: Arc<Mutex<Vec<Vec<u8>>>>,
+    accepts: Arc<Mutex<Vec<Instant>>>,
+    stop: Arc<Mutex<bool>>,
+}
+
+fn good_reply_for(req: &[u8]) -> Vec<u8> {
+    let fc = req[0];
+    let n = u16::from_be_bytes([req[3], req[4]]) as usize;
+    match fc {
+        1 | 2 => {
+            let nb = n.div_ceil(8);
+            let mut p = vec![fc, nb as u8];
+            p.extend((0..nb).map(|i| 0xA5u8.wrapping_add(i as u8) & if i + 1 == nb && n % 8 != 0 { (1u8 << (n % 8)) - 1 } else { 0xFF }));
+            p
+        }
+        3 | 4 => {
+            let mut p = vec![fc, (2 * n) as u8];
+            for i in 0..n {
+                p.extend_from_slice(&(0x1100u16 + i as u16).to_be_bytes());
+            }
+            p
+        }
+        _ => req[..5].to_vec(),
+    }
+}
+
+fn spawn_peer(behaviour: PeerBehaviour, close_after_accept: bool) -> Peer {
+    let l = std::net::TcpListener::bind("127.0.0.1:0").expect("bind");
+    let addr = l.local_addr().unwrap();
+    l.set_nonblocking(true).unwrap();
+    let requests = Arc::new(Mutex::new(vec![]));
+    let accepts = Arc::new(Mutex::new(vec![]));
+    let stop = Arc::new(Mutex::new(false));
+    let (r2, a2, s2) = (requests.clone(), accepts.clone(), stop.clone());
+    std::thread::spawn(move || {
+        let mut conns: Vec<TcpStream> = vec![];
+        let mut bufs: Vec<Vec<u8>> = vec![];
+        loop {
+            if *s2.lock().unwrap() {
+                return;
+            }
+            if let Ok((s, _)) = l.accept() {
+                a2.lock().unwrap().push(Instant::now());
+                if close_after_accept {
+                    drop(s);
+                } else {
+                    s.set_nonblocking(true).unwrap();
+                    conns.push(s);
+                    bufs.push(vec![]);
+                }
+            }
+            let mut dead = vec![];
+            for (i, c) in conns.iter_mut().enumerate() {
+                let mut tmp = [0u8; 512];
+                match c.read(&mut tmp) {
+                    Ok(0) => dead.push(i),
+                    Ok(k) => bufs[i].extend_from_slice(&tmp[..k]),
+                    Err(e) if e.kind() == std::io::ErrorKind::WouldBlock => {}
+                    Err(_) => dead.push(i),
+                }
+                while bufs[i].len() >= 7 {
+                    let len = u16::from_be_bytes([bufs[i][4], bufs[i][5]]) as usize;
+                    if bufs[i].len() < 6 + len {
+                        break;
+                    }
+                    let frame: Vec<u8> = bufs[i].drain(..6 + len).collect();
+                    r2.lock().unwrap().push(frame.clone());
+                    let (tx, unit, pdu) = ([frame[0], frame[1]], frame[6], &frame[7..]);
+                    let reply_pdu: Option<Vec<u8>> = match behaviour {
+                        PeerBehaviour::Good => Some(good_reply_for(pdu)),
+                        PeerBehaviour::Exception(c) => Some(vec![pdu[0] | 0x80, c]),
+                        PeerBehaviour::BadReply => Some(vec![pdu[0]]),
+                        PeerBehaviour::BadFrame => {
+                            let _ = c.write_all(&[tx[0], tx[1], 0, 1, 0, 3, unit, pdu[0], 0]);
+                            None
+                        }
+                        PeerBehaviour::Silent => None,
+                        PeerBehaviour::Close => {
+                            dead.push(i);
+                            None
+                        }
+                    };
+                    if let Some(p) = reply_pdu {
+                        let mut f = vec![tx[0], tx[1], 0, 0];
+                        f.extend_from_slice(&((p.len() + 1) as u16).to_be_bytes());
+                        f.push(unit);
+                        f.extend(p);
+                        let _ = c.write_all(&f);
+                    }
+                }
+            }
+            dead.sort();
+            dead.dedup();
+            for i in dead.into_iter().rev() {
+                conns.remove(i);
+                bufs.remove(i);
+            }
+            std::thread::sleep(Duration::from_micros(200));
+        }
+    });
+    Peer { addr, requests, accepts, stop }
+}
+
+impl Drop for Peer {
+    fn drop(&mut self) {
+        *self.stop.lock().unwrap() = true;
+    }
+}
+
+/// the eight client operations with fixed arguments
+#[derive(Clone, Copy, Debug, PartialEq, Eq, Hash, serde::Serialize, serde::Deserialize)]
+pub enum Op {
+    ReadCoils,
+    ReadDiscrete,
+    ReadHolding,
+    ReadInput,
+    WriteCoil,
+    WriteReg,
+    WriteCoils,
+    WriteRegs,
+}
+
+const OPS: [Op; 8] = [Op::ReadCoils, Op::ReadDiscrete, Op::ReadHolding, Op::ReadInput, Op::WriteCoil, Op::WriteReg, Op::WriteCoils, Op::WriteRegs];
+
+#[derive(Clone, Debug, PartialEq, Eq, Hash)]
+pub enum Completion {
+    Bits(Vec<(u16, bool)>),
+    Regs(Vec<(u16, u16)>),
+    WriteOk,
+    Failure(c_int),
+}
+
+#[derive(Default)]
+pub struct CbState {
+    pub completions: Vec<Completion>,
+}
+
+extern "C" fn bits_complete(it: *mut rodbus_ffi::BitValueIterator, ctx: *mut c_void) {
+    let c: &Ctx<CbState> = unsafe { ctx_ref(ctx) };
+    let mut v = vec![];
+    loop {
+        let p = unsafe { ffi::rodbus_bit_value_iterator_next(it) };
+        if p.is_null() {
+            break;
+        }
+        let x = unsafe { &*p };
+        v.push((x.index, x.value));
+    }
+    c.state.lock().unwrap().completions.push(Completion::Bits(v));
+}
+
+extern "C" fn regs_complete(it: *mut rodbus_ffi::RegisterValueIterator, ctx: *mut c_void) {
+    let c: &Ctx<CbState> = unsafe { ctx_ref(ctx) };
+    let mut v = vec![];
+    loop {
+        let p = unsafe { ffi::rodbus_register_value_iterator_next(it) };
+        if p.is_null() {
+            break;
+        }
+        let x = unsafe { &*p };
+        v.push((x.index, x.value));
+    }
+    c.state.lock().unwrap().completions.push(Completion::Regs(v));
+}
+
+extern "C" fn write_complete(_r: c_int, ctx: *mut c_void) {
+    let c: &Ctx<CbState> = unsafe { ctx_ref(ctx) };
+    c.state.lock().unwrap().completions.push(Completion::WriteOk);
+}
+
+extern "C" fn cb_failure(err: c_int, ctx: *mut c_void) {
+    let c: &Ctx<CbState> = unsafe { ctx_ref(ctx) };
+    c.state.lock().unwrap().completions.push(Completion::Failure(err));
+}
+
+#[derive(Default)]
+struct StateLog {
+    states: Vec<c_int>,
+}
+
+extern "C" fn on_client_state(state: c_int, ctx: *mut c_void) {
+    let c: &Ctx<StateLog> = unsafe { ctx_ref(ctx) };
+    c.state.lock().unwrap().states.push(state);
+}
+
+struct FfiClient {
+    ch: *mut rodbus_ffi::ClientChannel,
+    states: Arc<Mutex<StateLog>>,
+    listener_destroyed: Arc<Mutex<u32>>,
+}
+
+impl FfiClient {
+    fn new(rt: &FfiRuntime, addr: SocketAddr, queue: u16, retry_ms: (u64, u64), level: ffi::DecodeLevel) -> Self {
+        let states = Arc::new(Mutex::new(StateLog::default()));
+        let destroyed = Arc::new(Mutex::new(0));
+        let listener = ffi::ClientStateListener { on_change: Some(on_client_state), on_destroy: Some(ctx_destroy::<StateLog>), ctx: ctx_new(states.clone(), destroyed.clone()) };
+        let mut out: *mut rodbus_ffi::ClientChannel = null_mut();
+        let host = cstr(&addr.ip().to_string());
+        let rc = unsafe { ffi::rodbus_client_channel_create_tcp(rt.0, host.as_ptr(), addr.port(), queue, ffi::RetryStrategy { min_delay: retry_ms.0, max_delay: retry_ms.1 }, level, listener, &mut out) };
+        assert_eq!(rc, OK);
+        FfiClient { ch: out, states, listener_destroyed: destroyed }
+    }
+    fn wait_state(&self, want: c_int, ms: u64) -> bool {
+        let deadline = Instant::now() + Duration::from_millis(ms);
+        while Instant::now() < deadline {
+            if self.states.lock().unwrap().states.last() == Some(&want) {
+                return true;
+            }
+            std::thread::sleep(Duration::from_millis(1));
+        }
+        false
+    }
+    /// issue one operation; returns (return code, callback state, destroy counter)
+    fn call(&self, op: Op, unit: u8, timeout_ms: u64, start: u16, count: u16) -> (c_int, Arc<Mutex<CbState>>, Arc<Mutex<u32>>) {
+        let st = Arc::new(Mutex::new(CbState::default()));
+        let d = Arc::new(Mutex::new(0));
+        let param = ffi::RequestParam { unit_id: unit, timeout: timeout_ms };
+        let range = ffi::AddressRange { start, count };
+        let rc = unsafe {
+            match op {
+                Op::ReadCoils | Op::ReadDiscrete => {
+                    let cb = ffi::BitReadCallback { on_complete: Some(bits_complete), on_failure: Some(cb_failure), on_destroy: Some(ctx_destroy::<CbState>), ctx: ctx_new(st.clone(), d.clone()) };
+                    if op == Op::ReadCoils { ffi::rodbus_client_channel_read_coils(self.ch, param, range, cb) } else { ffi::rodbus_client_channel_read_discrete_inputs(self.ch, param, range, cb) }
+                }
+                Op::ReadHolding | Op::ReadInput => {
+                    let cb = ffi::RegisterReadCallback { on_complete: Some(regs_complete), on_failure: Some(cb_failure), on_destroy: Some(ctx_destroy::<CbState>), ctx: ctx_new(st.clone(), d.clone()) };
+                    if op == Op::ReadHolding { ffi::rodbus_client_channel_read_holding_registers(self.ch, param, range, cb) } else { ffi::rodbus_client_channel_read_input_registers(self.ch, param, range, cb) }
+                }
+                _ => {
+                    let cb = ffi::WriteCallback { on_complete: Some(write_complete), on_failure: Some(cb_failure), on_destroy: Some(ctx_destroy::<CbState>), ctx: ctx_new(st.clone(), d.clone()) };
+                    match op {
+                        Op::WriteCoil => ffi::rodbus_client_channel_write_single_coil(self.ch, param, ffi::BitValue { index: start, value: count % 2 == 1 }, cb),
+                        Op::WriteReg => ffi::rodbus_client_channel_write_single_register(self.ch, param, ffi::RegisterValue { index: start, value: count.wrapping_mul(257) }, cb),
+                        Op::WriteCoils => {
+                            let l = ffi::rodbus_bit_list_create(count as u32);
+                            for i in 0..count {
+                                ffi::rodbus_bit_list_add(l, i % 3 == 0);
+                            }
+                            let rc = ffi::rodbus_client_channel_write_multiple_coils(self.ch, param, start, l, cb);
+                            ffi::rodbus_bit_list_destroy(l);
+                            rc
+                        }
+                        _ => {
+                            let l = ffi::rodbus_register_list_create(count as u32);
+                            for i in 0..count {
+                                ffi::rodbus_register_list_add(l, 0x2200 + i);
+                            }
+                            let rc = ffi::rodbus_client_channel_write_multiple_registers(self.ch, param, start, l, cb);
+                            ffi::rodbus_register_list_destroy(l);
+                            rc
+                        }
+                    }
+                }
+            }
+        };
+        (rc, st, d)
+    }
+}
+
+impl Drop for FfiClient {
+    fn drop(&mut self) {
+        unsafe { ffi::rodbus_client_channel_destroy(self.ch) }
+    }
+}
+
+fn wait_completion(st: &Arc<Mutex<CbState>>, ms: u64) -> Vec<Completion> {
+    let deadline = Instant::now() + Duration::from_millis(ms);
+    while Instant::now() < deadline {
+        if !st.lock().unwrap().completions.is_empty() {
+            break;
+        }
+        std::thread::sleep(Duration::from_micros(300));
+    }
+    // allow a (buggy) second completion to show up
+    std::thread::sleep(Duration::from_millis(2));
+    st.lock().unwrap().completions.clone()
+}
+
+/// the same operation through the Rust API
+fn rust_call(ch: &rodbus::client::Channel, op: Op, unit: u8, timeout_ms: u64, start: u16, count: u16) -> Result<Completion, rodbus::RequestError> {
+    use rodbus::client::*;
+    use rodbus::*;
+    let param = RequestParam::new(UnitId::new(unit), Duration::from_millis(timeout_ms));
+    let range = |s, c| AddressRange::try_from(s, c).map_err(RequestError::from);
+    crate::net::rt().block_on(async {
+        match op {
+            Op::ReadCoils => ch.read_coils(param, range(start, count)?).await.map(|v| Completion::Bits(v.into_iter().map(|x| (x.index, x.value)).collect())),
+            Op::ReadDiscrete => ch.read_discrete_inputs(param, range(start, count)?).await.map(|v| Completion::Bits(v.into_iter().map(|x| (x.index, x.value)).collect())),
+            Op::ReadHolding => ch.read_holding_registers(param, range(start, count)?).await.map(|v| Completion::Regs(v.into_iter().map(|x| (x.index, x.value)).collect())),
+            Op::ReadInput => ch.read_input_registers(param, range(start, count)?).await.map(|v| Completion::Regs(v.into_iter().map(|x| (x.index, x.value)).collect())),
+            Op::WriteCoil => ch.write_single_coil(param, Indexed::new(start, count % 2 == 1)).await.map(|_| Completion::WriteOk),
+            Op::WriteReg => ch.write_single_register(param, Indexed::new(start, count.wrapping_mul(257))).await.map(|_| Completion::WriteOk),
+            Op::WriteCoils => {
+                let w = WriteMultiple::from(start, (0..count).map(|i| i % 3 == 0).collect()).map_err(RequestError::from)?;
+                ch.write_multiple_coils(param, w).await.map(|_| Completion::WriteOk)
+            }
+            Op::WriteRegs => {
+                let w = WriteMultiple::from(start, (0..count).map(|i| 0x2200 + i).collect()).map_err(RequestError::from)?;
+                ch.write_multiple_registers(param, w).await.map(|_| Completion::WriteOk)
+            }
+        }
+    })
+}
+
+struct RustStates(Arc<Mutex<Vec<String>>>);
+impl rodbus::client::Listener<rodbus::client::ClientState> for RustStates {
+    fn update(&mut self, value: rodbus::client::ClientState) -> rodbus::MaybeAsync<()> {
+        let name = format!("{value:?}");
+        self.0.lock().unwrap().push(name.split('(').next().unwrap().to_string());
+        rodbus::MaybeAsync::ready(())
+    }
+}
+
+fn rust_client(addr: SocketAddr, queue: usize, retry_ms: (u64, u64), level: rodbus::DecodeLevel) -> (rodbus::client::Channel, Arc<Mutex<Vec<String>>>) {
+    let states = Arc::new(Mutex::new(vec![]));
+    let s2 = states.clone();
+    let ch = crate::net::rt().block_on(async move {
+        let ch = rodbus::client::spawn_tcp_client_task(
+            rodbus::client::HostAddr::ip(addr.ip(), addr.port()),
+            queue,
+            rodbus::doubling_retry_strategy(Duration::from_millis(retry_ms.0), Duration::from_millis(retry_ms.1)),
+            level,
+            Some(Box::new(RustStates(s2))),
+        );
+        ch
+    });
+    (ch, states)
+}
+
+fn wait_rust_state(states: &Arc<Mutex<Vec<String>>>, want: &str, ms: u64) -> bool {
+    let deadline = Instant::now() + Duration::from_millis(ms);
+    while Instant::now() < deadline {
+        if states.lock().unwrap().last().map(|s| s == want).unwrap_or(false) {
+            return true;
+        }
+        std::thread::sleep(Duration::from_millis(1));
+    }
+    false
+}
+
+const CLIENT_STATE_NAMES: [&str; 6] = ["Disabled", "Connecting", "Connected", "WaitAfterFailedConnect", "WaitAfterDisconnect", "Shutdown"];
+
+fn args_for(op: Op) -> (u16, u16) {
+    match op {
+        Op::ReadCoils => (3, 11),
+        Op::ReadDiscrete => (0xFFF0, 16),
+        Op::ReadHolding => (7, 5),
+        Op::ReadInput => (0xFFFF, 1),
+        Op::WriteCoil => (0x0102, 1),
+        Op::WriteReg => (0xFFFE, 0x33),
+        Op::WriteCoils => (9, 10),
+        Op::WriteRegs => (0x1000, 4),
+    }
+}
+
+/// one differential transaction; returns problems
+fn c18_client_case(rt: &FfiRuntime, op: Op, behaviour: PeerBehaviour, unit: u8, timeout_ms: u64, st: &mut Stats) -> Vec<(String, String)> {
+    let mut out = vec![];
+    let (start, count) = args_for(op);
+    // C ABI
+    let peer_a = spawn_peer(behaviour, false);
+    let fc = FfiClient::new(rt, peer_a.addr, 4, (1000, 1000), decode_nothing());
+    let rc = unsafe { ffi::rodbus_client_channel_enable(fc.ch) };
+    if rc != OK || !fc.wait_state(2, 3000) {
+        return vec![("MACHINERY:ffi-client-did-not-connect".into(), format!("rc {rc} states {:?}", fc.states.lock().unwrap().states))];
+    }
+    let t0 = Instant::now();
+    let (rc, cbs, destroyed) = fc.call(op, unit, timeout_ms, start, count);
+    let comps = wait_completion(&cbs, timeout_ms + 3000);
+    let elapsed = t0.elapsed();
+    let ffi_req = peer_a.requests.lock().unwrap().clone();
+    // Rust API
+    let peer_b = spawn_peer(behaviour, false);
+    let (ch, states) = rust_client(peer_b.addr, 4, (1000, 1000), rodbus::DecodeLevel::nothing());
+    let _ = crate::net::rt().block_on(ch.enable());
+    if !wait_rust_state(&states, "Connected", 3000) {
+        return vec![("MACHINERY:rust-client-did-not-connect".into(), format!("{:?}", states.lock().unwrap()))];
+    }
+    let rust = rust_call(&ch, op, unit, timeout_ms, start, count);
+    let rust_req = peer_b.requests.lock().unwrap().clone();
+    st.observe(&(op, behaviour, unit, &rust.as_ref().map_err(|e| format!("{e:?}"))));
+    st.class(match &rust {
+        Ok(_) => "outcome:success",
+        Err(rodbus::RequestError::Exception(_)) => "outcome:exception",
+        Err(rodbus::RequestError::ResponseTimeout) => "outcome:timeout",
+        Err(rodbus::RequestError::Io(_)) => "outcome:io",
+        Err(rodbus::RequestError::BadFrame(_)) => "outcome:bad-frame",
+        Err(rodbus::RequestError::BadResponse(_)) => "outcome:bad-response",
+        Err(_) => "outcome:other",
+    });
+    // compare
+    if rc != OK {
+        out.push(("c-abi-call-rejected".into(), format!("{op:?} returned {rc}")));
+    }
+    if ffi_req != rust_req {
+        out.push((format!("request-bytes-differ:{op:?}"), format!("C ABI sent {:?}, Rust API sent {:?}", ffi_req.iter().map(|x| hex(x)).collect::<Vec<_>>(), rust_req.iter().map(|x| hex(x)).collect::<Vec<_>>())));
+    }
+    if comps.len() != 1 {
+        out.push((format!("completion-callback-count:{op:?}"), format!("{} completion callbacks ({comps:?}), expected exactly one", comps.len())));
+    }
+    let dn = *destroyed.lock().unwrap();
+    if dn != 1 {
+        out.push((format!("on-destroy-count:{op:?}"), format!("on_destroy called {dn} times")));
+    }
+    if let Some(c) = comps.first() {
+        let want = match &rust {
+            Ok(v) => v.clone(),
+            Err(e) => Completion::Failure(ffi_code_for(e)),
+        };
+        if *c != want {
+            let sig = match (&rust, c) {
+                (Err(e), Completion::Failure(_)) => format!("error-mapping:{}", format!("{e:?}").split('(').next().unwrap()),
+                _ => format!("outcome-differs:{op:?}"),
+            };
+            out.push((sig, format!("{op:?} {behaviour:?}: C ABI reported {c:?}, Rust API {rust:?} (= {want:?})")));
+        }
+    }
+    if behaviour == PeerBehaviour::Silent && (elapsed < Duration::from_millis(timeout_ms) || elapsed > Duration::from_millis(timeout_ms + 1500)) {
+        out.push(("timeout-not-forwarded".into(), format!("timeout {timeout_ms} ms but the failure arrived after {elapsed:?}")));
+    }
+    drop(fc);
+    out
+}
+
+#[derive(Default)]
+struct RustWriteHandler {
+    results: [Option<rodbus::ExceptionCode>; 4],
+    set: [bool; 4],
+    regs: BTreeMap<u16, u16>,
+}
+
+impl rodbus::server::RequestHandler for RustWriteHandler {
+    fn read_holding_register(&self, address: u16) -> Result<u16, rodbus::ExceptionCode> {
+        self.regs.get(&address).copied().ok_or(rodbus::ExceptionCode::IllegalDataAddress)
+    }
+    fn write_single_coil(&mut self, _v: rodbus::Indexed<bool>) -> Result<(), rodbus::ExceptionCode> {
+        if !self.set[0] {
+            return Err(rodbus::ExceptionCode::IllegalFunction);
+        }
+        self.results[0].map(Err).unwrap_or(Ok(()))
+    }
+    fn write_single_register(&mut self, _v: rodbus::Indexed<u16>) -> Result<(), rodbus::ExceptionCode> {
+        if !self.set[1] {
+            return Err(rodbus::ExceptionCode::IllegalFunction);
+        }
+        self.results[1].map(Err).unwrap_or(Ok(()))
+    }
+    fn write_multiple_coils(&mut self, _v: rodbus::server::WriteCoils) -> Result<(), rodbus::ExceptionCode> {
+        if !self.set[2] {
+            return Err(rodbus::ExceptionCode::IllegalFunction);
+        }
+        self.results[2].map(Err).unwrap_or(Ok(()))
+    }
+    fn write_multiple_registers(&mut self, _v: rodbus::server::WriteRegisters) -> Result<(), rodbus::ExceptionCode> {
+        if !self.set[3] {
+            return Err(rodbus::ExceptionCode::IllegalFunction);
+        }
+        self.results[3].map(Err).unwrap_or(Ok(()))
+    }
+}
+
+/// ffi::ModbusException value -> same-named rodbus::ExceptionCode (hand-written)
+fn named_exception(v: c_int, raw: u8) -> rodbus::ExceptionCode {
+    use rodbus::ExceptionCode as X;
+    match v {
+        1 => X::IllegalFunction,
+        2 => X::IllegalDataAddress,
+        3 => X::IllegalDataValue,
+        4 => X::ServerDeviceFailure,
+        5 => X::Acknowledge,
+        6 => X::ServerDeviceBusy,
+        8 => X::MemoryParityError,
+        10 => X::GatewayPathUnavailable,
+        11 => X::GatewayTargetDeviceFailedToRespond,
+        _ => X::Unknown(raw),
+    }
+}
+
+const WRITE_REQS: [(&str, &[u8], &str); 4] = [
+    ("write-single-coil", &[5, 0x01, 0x02, 0xFF, 0x00], "wsc 258 true"),
+    ("write-single-register", &[6, 0xFF, 0xFE, 0xAB, 0xCD], "wsr 65534 43981"),
+    ("write-multiple-coils", &[15, 0, 9, 0, 10, 2, 0b0100_1001, 0b0000_0010], "wmc 9 [(9, true), (10, false), (11, false), (12, true), (13, false), (14, false), (15, true), (16, false), (17, false), (18, true)]"),
+    ("write-multiple-registers", &[16, 0x10, 0, 0, 2, 4, 0x22, 0x00, 0x22, 0x01], "wmr 4096 [(4096, 8704), (4097, 8705)]"),
+];
+
+fn c18_server_part(rt: &FfiRuntime, thorough: bool) -> Stats {
+    let mut st = Stats::default();
+    // the result table: success, each named exception, Unknown with raw codes, callback not set
+    let mut results: Vec<(Option<(bool, c_int, u8)>, bool)> = vec![(Some((true, 1, 0)), true)];
+    for e in [1, 2, 3, 4, 5, 6, 8, 10, 11] {
+        results.push((Some((false, e, 0x77)), true));
+    }
+    let raws: Vec<u8> = if thorough { (0..=255).collect() } else { vec![0, 1, 2, 7, 9, 0x0C, 0x7F, 0x80, 0xFF] };
+    for r in raws {
+        results.push((Some((false, 255, r)), true));
+    }
+    results.push((None, false));
+    for (res, set) in results {
+        // C ABI server
+        let ws = Arc::new(Mutex::new(WriteState { results: [res; 4], apply: false, ..Default::default() }));
+        let (server, addr, _l) = match ffi_server(rt, Variant::Tcp, &FilterSpec::Any, "127.0.0.1", ten_registers(), ws.clone(), [set; 4]) {
+            Ok(x) => x,
+            Err(e) => {
+                st.violation(Violation { signature: "MACHINERY:c-abi-server".into(), summary: e, replay: json!({}) });
+                return st;
+            }
+        };
+        // Rust API server with the same-named results
+        let rh = RustWriteHandler { results: [res.and_then(|r| if r.0 { None } else { Some(named_exception(r.1, r.2)) }); 4], set: [set; 4], regs: (0..10).map(|i| (i, 100 + i)).collect() };
+        use rodbus::server::RequestHandler;
+        let map = rodbus::server::ServerHandlerMap::single(rodbus::UnitId::new(1), rh.wrap());
+        let (rhandle, raddr) = crate::net::rt().block_on(async {
+            let (l, a) = crate::net::listen("127.0.0.1").await;
+            let (h, t) = rodbus::server::create_tcp_server_task(4, l, map, rodbus::server::AddressFilter::Any, rodbus::DecodeLevel::nothing());
+            tokio::spawn(t.run());
+            (h, a)
+        });
+        let mut sa = connect_from("127.0.0.1", addr).unwrap();
+        let mut sb = connect_from("127.0.0.1", raddr).unwrap();
+        for (k, (name, pdu, call)) in WRITE_REQS.iter().enumerate() {
+            st.evaluations += 1;
+            let tx = 0x0300 + k as u16;
+            let _ = sa.write_all(&mbap_frame(tx, 1, pdu));
+            let _ = sb.write_all(&mbap_frame(tx, 1, pdu));
+            let read_reply = |s: &mut TcpStream| -> Vec<u8> {
+                match read_exact_timeout(s, 7, 3000) {
+                    Ok(h) => {
+                        let len = u16::from_be_bytes([h[4], h[5]]) as usize;
+                        read_exact_timeout(s, len - 1, 3000).unwrap_or_default()
+                    }
+                    Err(_) => vec![],
+                }
+            };
+            let ra = read_reply(&mut sa);
+            let rb = read_reply(&mut sb);
+            // what the names say
+            let want: Vec<u8> = match res {
+                None => vec![pdu[0] | 0x80, 1],
+                Some((true, _, _)) => pdu[..5].to_vec(),
+                Some((false, e, raw)) => vec![pdu[0] | 0x80, u8::from(named_exception(e, raw))],
+            };
+            st.class(match res {
+                None => "write-callback-not-set",
+                Some((true, ..)) => "write-result-success",
+                Some((false, 255, _)) => "write-result-raw-exception",
+                _ => "write-result-named-exception",
+            });
+            st.observe(&(name, res));
+            if ra != rb || ra != want {
+                st.violation(Violation {
+                    signature: format!("write-result-not-forwarded:{name}"),
+                    summary: format!("{name} with callback result {res:?}: C ABI server replied {}, Rust server {}, expected {}", hex(&ra), hex(&rb), hex(&want)),
+                    replay: json!({"kind": "c18-server", "result": res.map(|r| (r.0, r.1, r.2)), "set": set, "request": k}),
+                });
+            }
+            if set {
+                let calls = ws.lock().unwrap().calls.clone();
+                if calls.get(k).map(|s| s.as_str()) != Some(*call) {
+                    st.violation(Violation {
+                        signature: format!("write-callback-arguments:{name}"),
+                        summary: format!("{name}: callback saw {:?}, expected {call:?}", calls.get(k)),
+                        replay: json!({"kind": "c18-server", "result": res.map(|r| (r.0, r.1, r.2)), "set": set, "request": k}),
+                    });
+                }
+            }
+        }
+        st.sample(json!({"callback_result": format!("{res:?}"), "callbacks_set": set}));
+        let _ = crate::net::rt().block_on(rhandle.shutdown());
+        drop(server);
+    }
+    st
+}
+
+fn c18_client_part(rt: &FfiRuntime, thorough: bool) -> Stats {
+    let mut st = Stats::default();
+    let mut cases: Vec<(Op, PeerBehaviour, u8, u64)> = vec![];
+    for (i, op) in OPS.iter().enumerate() {
+        for unit in [0u8, 1, 255] {
+            cases.push((*op, PeerBehaviour::Good, unit, 1000));
+        }
+        cases.push((*op, PeerBehaviour::Good, 7, 4_294_967_295));
+        cases.push((*op, PeerBehaviour::BadReply, 1, 1000));
+        cases.push((*op, PeerBehaviour::BadFrame, 1, 1000));
+        cases.push((*op, PeerBehaviour::Close, 1, 1000));
+        cases.push((*op, PeerBehaviour::Silent, 1, if i % 2 == 0 { 1 } else { 60 }));
+        let codes: Vec<u8> = if thorough || i == 0 || i == 5 { (0..=255).collect() } else { vec![0, 1, 2, 3, 4, 5, 6, 7, 8, 9, 10, 11, 12, 0x80, 0xFF] };
+        for c in codes {
+            cases.push((*op, PeerBehaviour::Exception(c), 1, 1000));
+        }
+    }
+    for (k, (op, beh, unit, timeout)) in cases.iter().enumerate() {
+        st.evaluations += 1;
+        let problems = c18_client_case(rt, *op, *beh, *unit, *timeout, &mut st);
+        if k % 101 == 0 {
+            st.sample(json!({"op": format!("{op:?}"), "peer": format!("{beh:?}"), "unit": unit, "timeout_ms": timeout}));
+        }
+        for (sig, desc) in problems {
+            st.violation(Violation { signature: sig, summary: desc, replay: json!({"kind": "c18-client", "op": op, "peer": beh, "unit": unit, "timeout": timeout}) });
+        }
+    }
+    st
+}
+
+/// conditions under which the call itself reports an error
+fn c18_call_errors(rt: &FfiRuntime) -> Stats {
+    let mut st = Stats::default();
+    // (a) no connection / disabled: the call is accepted, the callback reports NoConnection
+    {
+        let port = free_port("127.0.0.1");
+        let addr: SocketAddr = format!("127.0.0.1:{port}").parse().unwrap();
+        let fc = FfiClient::new(rt, addr, 4, (50, 50), decode_nothing());
+        for enabled in [false, true] {
+            if enabled {
+                unsafe { ffi::rodbus_client_channel_enable(fc.ch) };
+                std::thread::sleep(Duration::from_millis(20));
+            }
+            for op in OPS {
+                let (s, c) = args_for(op);
+                let (rc, cbs, d) = fc.call(op, 1, 100, s, c);
+                let comps = wait_completion(&cbs, 2000);
+                st.evaluations += 1;
+                st.class("call:no-connection");
+                st.observe(&(op, enabled, &comps));
+                if rc != OK || comps != vec![Completion::Failure(ffi::RequestError::NoConnection.into())] || *d.lock().unwrap() != 1 {
+                    st.violation(Violation { signature: "no-connection-reporting".into(), summary: format!("{op:?} enabled={enabled}: rc {rc}, callbacks {comps:?}, on_destroy {}", d.lock().unwrap()), replay: json!({"kind": "c18-call-errors"}) });
+                }
+            }
+        }
+        // listener: same-named states in the same order as the Rust listener on the same script
+        let (ch, states) = rust_client(addr, 4, (50, 50), rodbus::DecodeLevel::nothing());
+        let _ = crate::net::rt().block_on(ch.enable());
+        std::thread::sleep(Duration::from_millis(30));
+        let _ = crate::net::rt().block_on(ch.disable());
+        unsafe { ffi::rodbus_client_channel_disable(fc.ch) };
+        std::thread::sleep(Duration::from_millis(30));
+        let ffi_states: Vec<String> = fc.states.lock().unwrap().states.iter().map(|s| CLIENT_STATE_NAMES.get(*s as usize).unwrap_or(&"?").to_string()).collect();
+        let rust_states = states.lock().unwrap().clone();
+        // both must visit Disabled, Connecting, WaitAfterFailedConnect and end Disabled
+        let dedup = |v: &Vec<String>| {
+            let mut o: Vec<String> = vec![];
+            for s in v {
+                if o.last() != Some(s) {
+                    o.push(s.clone());
+                }
+            }
+            let set: std::collections::BTreeSet<String> = o.iter().cloned().collect();
+            (set, o.first().cloned(), o.last().cloned())
+        };
+        st.evaluations += 1;
+        st.class("listener:refused-connection-script");
+        if dedup(&ffi_states) != dedup(&rust_states) {
+            st.violation(Violation { signature: "client-state-names".into(), summary: format!("C ABI listener saw {ffi_states:?}, Rust listener {rust_states:?}"), replay: json!({"kind": "c18-call-errors"}) });
+        }
+    }
+    // (b) queue full: max_queued_requests = 1, a silent peer, three calls in a row
+    {
+        let peer = spawn_peer(PeerBehaviour::Silent, false);
+        let fc = FfiClient::new(rt, peer.addr, 1, (1000, 1000), decode_nothing());
+        unsafe { ffi::rodbus_client_channel_enable(fc.ch) };
+        if fc.wait_state(2, 3000) {
+            let mut rcs = vec![];
+            let mut handles = vec![];
+            for _ in 0..4 {
+                let (rc, cbs, d) = fc.call(Op::ReadHolding, 1, 300, 0, 2);
+                rcs.push(rc);
+                handles.push((cbs, d));
+            }
+            std::thread::sleep(Duration::from_millis(1500));
+            st.evaluations += 4;
+            st.class("call:queue-full");
+            st.observe(&rcs);
+            if !rcs.contains(&perr(ffi::ParamError::TooManyRequests)) {
+                st.class("call:queue-full-not-reached");
+            }
+            for (i, (cbs, d)) in handles.iter().enumerate() {
+                let comps = cbs.lock().unwrap().completions.clone();
+                let dn = *d.lock().unwrap();
+                if comps.len() != 1 || dn != 1 {
+                    st.violation(Violation {
+                        signature: "completion-callback-count:queue-full".into(),
+                        summary: format!("call #{i} returned {} and produced {} completion callbacks ({comps:?}), on_destroy {dn}", rcs[i], comps.len()),
+                        replay: json!({"kind": "c18-call-errors"}),
+                    });
+                }
+                // a call that was accepted must end in a timeout, a refused one in some error
+                if rcs[i] == OK && comps != vec![Completion::Failure(ffi::RequestError::ResponseTimeout.into())] {
+                    st.violation(Violation { signature: "queued-request-result".into(), summary: format!("accepted call #{i} completed with {comps:?}"), replay: json!({"kind": "c18-call-errors"}) });
+                }
+            }
+            // TooManyRequests is the same-named counterpart of FfiChannelError::ChannelFull
+            for rc in &rcs {
+                if *rc != OK && *rc != perr(ffi::ParamError::TooManyRequests) {
+                    st.violation(Violation { signature: "queue-full-error-code".into(), summary: format!("return codes {rcs:?}"), replay: json!({"kind": "c18-call-errors"}) });
+                }
+            }
+        } else {
+            st.violation(Violation { signature: "MACHINERY:ffi-client-did-not-connect".into(), summary: "queue-full scenario".into(), replay: json!({}) });
+        }
+    }
+    // (c) parameter validation: invalid ranges, null channel: error code, at most one callback, on_destroy once
+    {
+        let peer = spawn_peer(PeerBehaviour::Good, false);
+        let fc = FfiClient::new(rt, peer.addr, 4, (1000, 1000), decode_nothing());
+        unsafe { ffi::rodbus_client_channel_enable(fc.ch) };
+        fc.wait_state(2, 3000);
+        for (op, s, c, want_rc) in [
+            (Op::ReadCoils, 0u16, 0u16, perr(ffi::ParamError::InvalidRange)),
+            (Op::ReadCoils, 0xFFFF, 2, perr(ffi::ParamError::InvalidRange)),
+            (Op::ReadHolding, 0, 0, perr(ffi::ParamError::InvalidRange)),
+            (Op::ReadCoils, 0, 2001, perr(ffi::ParamError::InvalidRange)),
+            (Op::ReadDiscrete, 0, 2001, perr(ffi::ParamError::InvalidRange)),
+            (Op::ReadHolding, 0, 126, perr(ffi::ParamError::InvalidRange)),
+            (Op::ReadInput, 0, 126, perr(ffi::ParamError::InvalidRange)),
+            (Op::WriteCoils, 0, 0, perr(ffi::ParamError::InvalidRequest)),
+            (Op::WriteRegs, 0xFFFF, 2, perr(ffi::ParamError::InvalidRequest)),
+        ] {
+            let (rc, cbs, d) = fc.call(op, 1, 200, s, c);
+            std::thread::sleep(Duration::from_millis(5));
+            let comps = cbs.lock().unwrap().completions.clone();
+            let dn = *d.lock().unwrap();
+            st.evaluations += 1;
+            st.class("call:parameter-validation");
+            st.observe(&(op, s, c, rc));
+            let sent = peer.requests.lock().unwrap().len();
+            if rc != want_rc || comps.len() > 1 || dn != 1 || sent != 0 {
+                st.violation(Violation {
+                    signature: "parameter-validation".into(),
+                    summary: format!("{op:?} start {s} count {c}: rc {rc} (expected {want_rc}), callbacks {comps:?}, on_destroy {dn}, frames sent {sent}"),
+                    replay: json!({"kind": "c18-call-errors"}),
+                });
+            }
+            // the Rust API refuses the same arguments
+            let (ch, _s) = rust_client(peer.addr, 4, (1000, 1000), rodbus::DecodeLevel::nothing());
+            let r = rust_call(&ch, op, 1, 200, s, c);
+            if !matches!(r, Err(rodbus::RequestError::BadRequest(_))) {
+                st.violation(Violation { signature: "parameter-validation:rust-differs".into(), summary: format!("{op:?} {s} {c}: Rust API returned {r:?}"), replay: json!({}) });
+            }
+        }
+        // null channel
+        let st2 = Arc::new(Mutex::new(CbState::default()));
+        let d2 = Arc::new(Mutex::new(0));
+        let cb = ffi::WriteCallback { on_complete: Some(write_complete), on_failure: Some(cb_failure), on_destroy: Some(ctx_destroy::<CbState>), ctx: ctx_new(st2.clone(), d2.clone()) };
+        let rc = unsafe { ffi::rodbus_client_channel_write_single_register(null_mut(), ffi::RequestParam { unit_id: 1, timeout: 10 }, ffi::RegisterValue { index: 0, value: 0 }, cb) };
+        st.evaluations += 1;
+        if rc != perr(ffi::ParamError::NullParameter) || st2.lock().unwrap().completions.len() > 1 || *d2.lock().unwrap() != 1 {
+            st.violation(Violation { signature: "null-channel".into(), summary: format!("rc {rc} callbacks {:?} on_destroy {}", st2.lock().unwrap().completions, d2.lock().unwrap()), replay: json!({}) });
+        }
+    }
+    st
+}
+
+/// every value of every enum that crosses the boundary and is observable
+fn c18_enums(rt: &FfiRuntime) -> Stats {
+    let mut st = Stats::default();
+    // decode levels: 36 combinations, observed through the log lines both APIs emit
+    let kinds = |lines: &[String]| -> BTreeMap<String, u32> {
+        let mut m = BTreeMap::new();
+        for l in lines {
+            for k in ["PDU TX", "PDU RX", "MBAP TX", "MBAP RX", "PHYS TX", "PHYS RX"] {
+                if l.contains(k) {
+                    // header-only vs payload lines differ in their number of lines / content
+                    let detail = if l.contains('\n') { "+data" } else { "" };
+                    let values = if l.contains("idx:") { "+values" } else if l.contains("start:") { "+headers" } else { "" };
+                    *m.entry(format!("{k}{detail}{values}")).or_insert(0) += 1;
+                }
+            }
+        }
+        m
+    };
+    for app in 0..4 {
+        for frame in 0..3 {
+            for phys in 0..3 {
+                let rust_level = crate::hserver::decode_level((app as u8, frame as u8, phys as u8));
+                // C ABI
+                let peer = spawn_peer(PeerBehaviour::Good, false);
+                let fc = FfiClient::new(rt, peer.addr, 4, (1000, 1000), decode(app, frame, phys));
+                unsafe { ffi::rodbus_client_channel_enable(fc.ch) };
+                if !fc.wait_state(2, 3000) {
+                    st.violation(Violation { signature: "MACHINERY:ffi-client-did-not-connect".into(), summary: "decode levels".into(), replay: json!({}) });
+                    return st;
+                }
+                crate::sim::trace::global_capture(true);
+                let (_rc, cbs, _d) = fc.call(Op::ReadHolding, 1, 1000, 2, 3);
+                wait_completion(&cbs, 2000);
+                let a = crate::sim::trace::global_capture(false);
+                // Rust API
+                let peer2 = spawn_peer(PeerBehaviour::Good, false);
+                let (ch, states) = rust_client(peer2.addr, 4, (1000, 1000), rust_level);
+                let _ = crate::net::rt().block_on(ch.enable());
+                wait_rust_state(&states, "Connected", 3000);
+                crate::sim::trace::global_capture(true);
+                let _ = rust_call(&ch, Op::ReadHolding, 1, 1000, 2, 3);
+                std::thread::sleep(Duration::from_millis(2));
+                let b = crate::sim::trace::global_capture(false);
+                st.evaluations += 1;
+                st.class("enum:decode-level");
+                st.observe(&(app, frame, phys, kinds(&a)));
+                if kinds(&a) != kinds(&b) {
+                    st.violation(Violation {
+                        signature: "decode-level-mapping".into(),
+                        summary: format!("decode level (app {app}, frame {frame}, phys {phys}): C ABI channel logged {:?}, Rust channel with the same-named level logged {:?}", kinds(&a), kinds(&b)),
+                        replay: json!({"kind": "c18-enums"}),
+                    });
+                }
+                // changing the level at run time through the C ABI: back to nothing = no decode lines
+                let rc = unsafe { ffi::rodbus_client_channel_set_decode_level(fc.ch, decode_nothing()) };
+                std::thread::sleep(Duration::from_millis(5));
+                crate::sim::trace::global_capture(true);
+                let (_rc, cbs, _d) = fc.call(Op::ReadHolding, 1, 1000, 2, 3);
+                wait_completion(&cbs, 2000);
+                let c = crate::sim::trace::global_capture(false);
+                if rc != OK || !kinds(&c).is_empty() {
+                    st.violation(Violation { signature: "set-decode-level".into(), summary: format!("after set_decode_level(nothing): rc {rc}, lines {:?}", kinds(&c)), replay: json!({"kind": "c18-enums"}) });
+                }
+            }
+        }
+    }
+    // client states on a connect / peer-closes / disable script
+    {
+        let peer = spawn_peer(PeerBehaviour::Close, false);
+        let fc = FfiClient::new(rt, peer.addr, 4, (40, 40), decode_nothing());
+        unsafe { ffi::rodbus_client_channel_enable(fc.ch) };
+        fc.wait_state(2, 3000);
+        let (_rc, cbs, _d) = fc.call(Op::ReadHolding, 1, 500, 0, 1);
+        wait_completion(&cbs, 2000);
+        fc.wait_state(4, 1000);
+        unsafe { ffi::rodbus_client_channel_disable(fc.ch) };
+        fc.wait_state(0, 1000);
+        let ffi_states: Vec<String> = fc.states.lock().unwrap().states.iter().map(|s| CLIENT_STATE_NAMES.get(*s as usize).unwrap_or(&"?").to_string()).collect();
+        let peer2 = spawn_peer(PeerBehaviour::Close, false);
+        let (ch, states) = rust_client(peer2.addr, 4, (40, 40), rodbus::DecodeLevel::nothing());
+        let _ = crate::net::rt().block_on(ch.enable());
+        wait_rust_state(&states, "Connected", 3000);
+        let _ = rust_call(&ch, Op::ReadHolding, 1, 500, 0, 1);
+        wait_rust_state(&states, "WaitAfterDisconnect", 1000);
+        let _ = crate::net::rt().block_on(ch.disable());
+        wait_rust_state(&states, "Disabled", 1000);
+        let rust_states = states.lock().unwrap().clone();
+        let head = |v: &Vec<String>| v.iter().take(4).cloned().collect::<Vec<_>>();
+        st.evaluations += 1;
+        st.class("enum:client-state");
+        st.observe(&ffi_states);
+        if head(&ffi_states) != head(&rust_states) || ffi_states.last() != rust_states.last() {
+            st.violation(Violation { signature: "client-state-names".into(), summary: format!("C ABI listener saw {ffi_states:?}, Rust listener {rust_states:?}"), replay: json!({"kind": "c18-enums"}) });
+        }
+        drop(fc);
+    }
+    // retry strategy: the delay configured through the C ABI is the delay waited (peer closes at once)
+    {
+        let peer = spawn_peer(PeerBehaviour::Good, true);
+        let fc = FfiClient::new(rt, peer.addr, 4, (150, 150), decode_nothing());
+        unsafe { ffi::rodbus_client_channel_enable(fc.ch) };
+        std::thread::sleep(Duration::from_millis(700));
+        unsafe { ffi::rodbus_client_channel_disable(fc.ch) };
+        let acc = peer.accepts.lock().unwrap().clone();
+        st.evaluations += 1;
+        st.class("config:retry-strategy");
+        let gaps: Vec<u128> = acc.windows(2).map(|w| (w[1] - w[0]).as_millis()).collect();
+        st.observe(&gaps.len());
+        if gaps.is_empty() || gaps.iter().any(|g| *g < 145 || *g > 400) {
+            st.violation(Violation { signature: "retry-strategy-not-forwarded".into(), summary: format!("min=max=150 ms but reconnect gaps were {gaps:?} ms"), replay: json!({"kind": "c18-enums"}) });
+        }
+    }
+    st
+}
+
+pub fn check_c18(tier: &str) -> i32 {
+    let mut rep = Report::new(
+        "C18",
+        tier,
+        "exploration",
+        "differential: every scenario runs once through the extern \"C\" functions of rodbus-ffi and once through the Rust API against identical scripted loopback peers. Client: 8 operations x outcomes {success with data, each exception code (all 256 for two operations, thorough: for all), bad reply, bad frame, timeout, connection closed} x unit ids {0,1,7,255} x timeouts {1 ms, 60 ms, 1 s, 2^32-1 ms}; request bytes must be identical, the C callback must report the same values or the same-named error (hand-written name table), on_complete+on_failure exactly once, on_destroy exactly once; calls that themselves report an error (no connection, queue full, invalid range, null channel). Server: 4 write callbacks x WriteResult {success, 9 named exceptions, raw codes, callback not set}: reply bytes equal the Rust server's with the same-named result and the callback sees exactly the sent values. Enums: all 36 decode levels (compared through the log lines both APIs emit), client states on scripted connection histories, retry strategy through behaviour. distinct = distinct (operation, peer behaviour, outcome) triples",
+    );
+    let thorough = rep.thorough();
+    let (a, b, c, d) = on_plain_thread(|| {
+        let rt = FfiRuntime::new(4);
+        let a = c18_client_part(&rt, thorough);
+        let b = c18_server_part(&rt, thorough);
+        let c = c18_call_errors(&rt);
+        let d = c18_enums(&rt);
+        (a, b, c, d)
+    });
+    rep.phase("client operations x outcomes", a, json!({}));
+    rep.phase("server write callbacks x results", b, json!({}));
+    rep.phase("calls that report an error", c, json!({}));
+    rep.phase("enums and configuration", d, json!({}));
+    for c in ["outcome:success", "outcome:exception", "outcome:timeout", "outcome:io", "outcome:bad-frame", "outcome:bad-response", "write-result-success", "write-result-named-exception", "write-result-raw-exception", "write-callback-not-set", "call:no-connection", "call:queue-full", "call:parameter-validation", "enum:decode-level", "enum:client-state", "config:retry-strategy"] {
+        rep.require_class(c);
+    }
+    rep.exhaustive = thorough;
+    rep.assumptions.push("for C-ABI calls rejected during parameter validation the completion callback is checked as 'at most once' (the property's quantifier lists queue-full and shutdown as the erroring conditions)".into());
+    rep.assumptions.push("serial settings, TLS settings and port states are not observable without hardware / are covered by C09; listed as not observed".into());
+    rep.finish()
+}
+
+pub fn replay_c18(v: &serde_json::Value) -> Vec<(String, String)> {
+    on_plain_thread(|| {
+        let rt = FfiRuntime::new(4);
+        match v["kind"].as_str() {
+            Some("c18-client") => {
+                let op: Op = serde_json::from_value(v["op"].clone()).unwrap();
+                let peer: PeerBehaviour = serde_json::from_value(v["peer"].clone()).unwrap();
+                let unit = v["unit"].as_u64().unwrap() as u8;
+                let timeout = v["timeout"].as_u64().unwrap();
+                let mut st = Stats::default();
+                c18_client_case(&rt, op, peer, unit, timeout, &mut st)
+            }
+            Some("c18-server") => c18_server_part(&rt, false).violations.into_iter().map(|x| (x.signature, x.summary)).collect(),
+            Some("c18-call-errors") => c18_call_errors(&rt).violations.into_iter().map(|x| (x.signature, x.summary)).collect(),
+            _ => c18_enums(&rt).violations.into_iter().map(|x| (x.signature, x.summary)).collect(),
+        }
     })
 }
